@@ -180,11 +180,11 @@ CHECKS = {
              "Location to decode to collection/name, and a listing to hold exactly the blobs of the tree, each once. "
              "Tied to /repo by predicting the exact text of every href in PROPFIND, query, sync-collection and Location "
              "responses and by dereferencing each as sent through both front ends under three route prefixes. "
-             "webdav.ensure_trailing_slash is TRANSLATED from /repo on every run and proved equal to the model's (it only ever appends one slash and its result ends in '/').",
+             "webdav.ensure_trailing_slash and webdav.traverse_resource (the Depth work list) are TRANSLATED from /repo on every run: Depth 0 is proved to yield exactly the addressed resource, Depth 1 additionally exactly its direct members, each once, under the model's child hrefs; an unknown depth raises.",
         note="the XML serialisation, the front ends' request-target decoding (aiohttp/yarl, the WSGI PATH_INFO "
              "convention) and dulwich's tree listing are exercised, not modelled; names with '/' or control characters "
              "are outside the grammar; route prefixes are ASCII.",
-        tech="Python->Lean translation (ensure_trailing_slash) + Lean 4 proof over a urllib/posixpath model + differential correspondence (href prediction and dereference)",
+        tech="Python->Lean translation (ensure_trailing_slash, traverse_resource) + Lean 4 proof over a urllib/posixpath model + differential correspondence (href prediction and dereference)",
         ref="5/C16"),
     "C17": dict(
         text="The multiget driver is modelled in Lean (read_href_element, href_to_path, the two loops of "
